@@ -62,6 +62,12 @@ def gen_cases(rng, tier):
       parts.append([m, s, [float(j + 1), float(10 * (j + 1)), float(100 * (j + 1))]])
     dup = (i % 11 == 5)
     cases.append({"parts": parts, "order_seed": rng.randrange(1 << 30), "ambiguous_dup": dup})
+  # starts closer together than doubles resolve, one an int and one a float (2**53 + 1 next to 2.0**53): the ordering of
+  # the ranges is by their exact values (a difference a.start - b.start would round to 0.0)
+  B = 9007199254740992
+  for k, chosen in enumerate([[(">", float(B)), (">", B + 1), (">=", 0.0)], [(">=", B + 1), (">", float(B)), (">", float(B + 2))], [(">", B + 1), (">=", float(B)), (">", 1.5)]]):
+    parts = [[m_, s_, [float(j + 1), float(10 * (j + 1)) * 1e-16, 0.0]] for j, (m_, s_) in enumerate(chosen)]
+    cases.append({"parts": parts, "order_seed": rng.randrange(1 << 30), "ambiguous_dup": False, "huge_int_starts": 1})
   if tier in ["quick","thorough"]:
     cases.append({"kind": "suite"})   # the repository's own tests with this check's contracts armed
   return cases
@@ -179,6 +185,8 @@ def run_case(case, ctx):
   rng = random.Random(case["order_seed"])
   n = len(parts)
   ctx.cls("nranges:%d" % n)
+  if case.get("huge_int_starts"):
+    ctx.cls("int_and_float_starts_closer_than_doubles_resolve")
   ctx.nontrivial(n >= 2)
   shared = len(set(s for _, s, _ in parts)) < n
   if shared:
@@ -232,7 +240,8 @@ def run_case(case, ctx):
   f = create_Multi_Range_Potential_Form(*mk(parts, range(n)))
   pts2 = sorted(set(pts) | set(points(parts2)))
   cur = parts
-  for j, r in enumerate(eval_orders(pts2, rng)[:3 * len(pts2)]):
+  # (the derived range sets below shift starts by 0.5: meaningless for int starts beyond 2**53, which that addition rounds)
+  for j, r in enumerate(eval_orders(pts2, rng)[:3 * len(pts2)] if not case.get("huge_int_starts") else []):
     if judge(ctx, cur, f, r, "api-reassigned-ranges", "as set") in ("err", "bad"):
       return
     cur = parts2 if cur is parts else parts
@@ -245,7 +254,7 @@ def run_case(case, ctx):
     ctx.count("reassignments_checked")
   # ---------------- API usage variant: the SAME Multi_Range_Defn objects serve two potential forms whose other ranges
   # differ (where a range ends belongs to the form, not to the definition object)
-  if n >= 2:
+  if n >= 2 and not case.get("huge_int_starts"):
     defs_a = mk(parts, range(n))
     shift = [[m_, s_ + (0.5 if k_ else 0.0), c_] for k_, (m_, s_, c_) in enumerate(parts)]
     fa = create_Multi_Range_Potential_Form(*defs_a)
